@@ -180,7 +180,8 @@ fn generate_f(seed: u64, quick: bool) -> Value {
     let mut rng = Rng::new(seed);
     let hash_seed = rng.next_u64() | 1;
     let literals = rng.chance(1, 3);
-    let nsub = if quick { rng.range(3, 10) } else { rng.range(3, 20) } as usize;
+    // now and then a long session: nothing may wear out
+    let nsub = if rng.chance(1, 80) { rng.range(150, 260) } else if quick { rng.range(3, 10) } else { rng.range(3, 20) } as usize;
     let mut defined = vec![];
     let mut subs: Vec<Value> = vec![];
     for _ in 0..nsub {
